@@ -99,7 +99,7 @@ FixVoice(tx, b) ==
                    ELSE IF IsVoiceBurst(b) /\ tx.lastVoice \in {"A", "B", "C", "D", "E"}
                         THEN SuccLabel(tx.lastVoice)
                    ELSE built
-          IN <<l, l>>
+          IN <<l, IF IsVoiceBurst(b) THEN l ELSE tx.lastVoice>>     \* the position moves with voice bursts only
 
 ProcessPacket(w0, b) ==                         \* Transmission.process_packet
   LET fv == FixVoice(w0.tx, b)
@@ -191,7 +191,8 @@ MonStep(m, b, o, typeAfter) ==
         ELSE IF m.open = "Voice" /\ m1.open = "Voice" /\ b.cls = "VE" /\ m.run # "None"
                 /\ o.label # SuccLabel(m.run) THEN "VoiceLabelsCyclic"
         ELSE "ok"
-      run == IF o.ev # <<>> \/ m1.open # "Voice" \/ ~IsVoiceBurst(b) THEN "None"
+      run == IF o.ev # <<>> \/ m1.open # "Voice" THEN "None"
+             ELSE IF ~IsVoiceBurst(b) THEN m.run          \* a header / CSBK / data burst heard in between is not one of "the bursts" labelled
              ELSE IF b.cls = "VS" THEN "A"
              ELSE IF m.run # "None" THEN SuccLabel(m.run) ELSE "None"     \* the label the statement asks for (total: never the observed one)
   IN <<[m1 EXCEPT !.run = run, !.pseq = o.seq, !.ended = HasEnded(o.ev) \/ m.deferred, !.deferred = FALSE,
